@@ -23,6 +23,31 @@ func (fr *Frame) hasName(name string) bool {
 func (fr *Frame) lookupName(name string, e *Env) (SVal, bool) {
 	c := fr.c
 	hb, _ := e.hdrBlock.(*ssa.BasicBlock)
+	if !fr.hasName(name) {
+		// "local <name> <type>" directive: the variable may have been renamed; it is the only local of its type
+		if ct := fr.activeContract(); ct != nil && ct.Locals[name] != "" {
+			want := strings.ReplaceAll(ct.Locals[name], " ", "")
+			qual := func(p *types.Package) string { return p.Name() }
+			var cands []string
+			for n, bs := range fr.names {
+				for _, b := range bs {
+					t := b.v.Type()
+					if b.addr {
+						if pt, ok := t.Underlying().(*types.Pointer); ok {
+							t = pt.Elem()
+						}
+					}
+					if strings.ReplaceAll(types.TypeString(t, qual), " ", "") == want {
+						cands = append(cands, n)
+						break
+					}
+				}
+			}
+			if len(cands) == 1 {
+				return fr.lookupName(cands[0], e)
+			}
+		}
+	}
 	// a parameter that is never reassigned (no phi / DebugRef'd redefinition reaching here) is its entry value;
 	// reassigned parameters are resolved below like any other variable, falling back to the entry value
 	paramFallback := func() (SVal, bool) {
@@ -137,6 +162,29 @@ func (fr *Frame) lookupName(name string, e *Env) (SVal, bool) {
 		}
 		return SVal{}, false
 	}
+	if _, isConst := best.v.(*ssa.Const); isConst && !best.addr {
+		// go/ssa records `var m = map[K]V{}` (and other composite-literal initialisers) as a debug reference to the nil
+		// constant followed by references to the real value at each use: when every other reference of the variable is one
+		// and the same value defined where it dominates hb, that value is the variable
+		var only ssa.Value
+		same := true
+		for _, b := range fr.names[name] {
+			if _, c2 := b.v.(*ssa.Const); c2 || b.addr {
+				continue
+			}
+			if only == nil {
+				only = b.v
+			} else if only != b.v {
+				same = false
+			}
+		}
+		if ins, ok := only.(ssa.Instruction); ok && same {
+			if _, have := fr.vals[only]; have && (hb == nil || (ins.Block() != hb && ins.Block().Dominates(hb))) {
+				val := fr.get(only)
+				return SVal{T: c.valTerm(val, name), Type: only.Type(), Val: &val}, true
+			}
+		}
+	}
 	val := fr.get(best.v)
 	if best.addr {
 		loc := c.derefLoc(val, best.v.Type())
@@ -152,6 +200,15 @@ func (fr *Frame) evalInvariant(inv *Clause, hb *ssa.BasicBlock, pred *ssa.BasicB
 	e := &Env{c: c, vars: map[string]SVal{}, cur: st, old: fr.entry, pkg: fr.fn.Pkg.Pkg, fr: fr, g: tTrue, hdrBlock: hb}
 	if ct := fr.activeContract(); ct != nil {
 		e.lets = letMap(ct)
+		if fr.parent == nil && len(fr.params) > 0 {
+			// positional names (recv, arg0, ...) used by clauses and lets imported from an interface contract
+			ce := c.contractEnv(ct, fr.fn.Signature, nil, fr.params, fr.fn.Pkg.Pkg, st, fr.entry)
+			for k, v := range ce.vars {
+				if k == "recv" || (strings.HasPrefix(k, "arg") && len(k) <= 5) {
+					e.vars[k] = v
+				}
+			}
+		}
 	}
 	if pred != nil {
 		e.phiOverride = map[*ssa.Phi]Val{}
@@ -430,6 +487,12 @@ func (c *Ctx) contractEnv(ct *Contract, sig *types.Signature, recvIface types.Ty
 			}
 			e.vars[name] = SVal{T: c.valTerm(a, name), Type: rt, Val: &a}
 			e.vars["recv"] = e.vars[name]
+			if it := c.implementedIface(ct, pkg); it != nil && recvIface == nil {
+				// clauses imported from the interface contract see the receiver as the interface value holding it
+				if _, isIface := rt.Underlying().(*types.Interface); !isIface {
+					e.vars["recv"] = SVal{T: c.boxIface(rt, c.valTerm(a, name), cur, tTrue), Type: it}
+				}
+			}
 		}
 		i++
 	}
@@ -447,6 +510,23 @@ func (c *Ctx) contractEnv(ct *Contract, sig *types.Signature, recvIface types.Ty
 		i++
 	}
 	return e
+}
+
+// implementedIface returns the interface type named by the contract's first "implements iface T.M" directive.
+func (c *Ctx) implementedIface(ct *Contract, pkg *types.Package) types.Type {
+	if ct == nil || len(ct.Implements) == 0 || pkg == nil {
+		return nil
+	}
+	name := strings.TrimPrefix(ct.Implements[0], "iface ")
+	if i := strings.Index(name, "."); i > 0 {
+		name = name[:i]
+	}
+	if obj := pkg.Scope().Lookup(name); obj != nil {
+		if tn, ok := obj.(*types.TypeName); ok {
+			return tn.Type()
+		}
+	}
+	return nil
 }
 
 func bindResults(e *Env, sig *types.Signature, res Val) {
@@ -486,6 +566,9 @@ func (fr *Frame) applyContract(ct *Contract, fn *ssa.Function, name string, args
 	// preconditions become obligations of the caller
 	short := ct.FuncName
 	for k, r := range ct.Requires {
+		if r.Assumed {
+			continue // input well-formedness: assumed inside the callee and listed there, not asked of callers
+		}
 		goal := c.safeEvalBool(e, r)
 		key := short + "." + clauseLabel(r, k)
 		n := c.preCount[key]
@@ -519,6 +602,9 @@ func (fr *Frame) applyContract(ct *Contract, fn *ssa.Function, name string, args
 	for _, en := range ct.Ensures {
 		t := c.safeEvalBool(pe, en)
 		c.assumeG(g, t)
+		if en.Tags["assumed"] {
+			c.trustedUsed["assumed postcondition of "+shortPkg(ct.Pkg)+"."+ct.FuncName+": "+en.Src] = true
+		}
 		if en.Tags["real"] {
 			c.usesReal = true
 		}
